@@ -240,6 +240,12 @@ func genC03(g *gen, c *sim.Case, tier string) {
 		keys = c03OddKeys
 	} else if r.Chance(1, 6) {
 		keys = c03PctKeys
+	} else if r.Chance(1, 20) {
+		// patterns with {a,b} alternatives (gobwas/glob, which the contract names, has them;
+		// known finding K2: the Redis backend takes the braces literally)
+		keys = []string{"a", "b", "ab", "{ab}", "c"}
+		g.patterns = []string{"{a,b}", "{a,b}*", "{a,ab}", "{b,c}", "a", "*", "{a,b}b", "[ab]"}
+		c.Knobs["brace_patterns"] = 1
 	} else if r.Chance(1, 25) {
 		// keys that differ only in leading slashes (known finding K1 on the Redis backend;
 		// a shadow model tells that aliasing from any other violation)
